@@ -44,7 +44,10 @@ def depth_obligations(targets):
             modname, fdef, cls = loader.find_function(q)
         except loader.LoadError:
             continue
-        rec = any(isinstance(n, ast.Call) and isinstance(n.func, ast.Name) and n.func.id == fdef.name for n in ast.walk(fdef))
+        rec = any(isinstance(n, ast.Call) and ((isinstance(n.func, ast.Name) and n.func.id == fdef.name) or
+                                               (isinstance(n.func, ast.Attribute) and n.func.attr == fdef.name and
+                                                isinstance(n.func.value, ast.Name) and n.func.value.id in ("self", "cls")))
+                  for n in ast.walk(fdef))
         out.append((q, not rec))
     return out
 
